@@ -126,7 +126,11 @@ pub fn run_history(h: &[Step]) -> Outcome {
     let distinct_files = h.iter().enumerate().all(|(i, s)| s.file == i);
     for (i, st) in h.iter().enumerate() {
         let rc = emmyrc_for(st.level);
-        vfs.update_config(rc.clone());
+        // `Vfs::update_config` parses the loaded files again under the new configuration (f07a23f), so it
+        // is only called when the level changes
+        if i == 0 || h[i - 1].level != st.level {
+            vfs.update_config(rc.clone());
+        }
         let uri = urls.new_uri(&format!("verif_c04_{}.lua", st.file));
         let fid = vfs.set_file_content(&uri, Some(st.text.clone()));
         fids.push(fid);
@@ -155,18 +159,25 @@ pub fn run_history(h: &[Step]) -> Outcome {
         }
         sexprs.push(a);
     }
-    // trees stored earlier must be unaffected by later parses
+    // trees stored earlier are unaffected by later parses of other files; after a configuration change
+    // they are the trees of their text under the configuration in force (= the last step's level)
     if distinct_files {
+        let last = h.last().map(|s| s.level).unwrap_or(LuaLanguageLevel::Lua55);
         for (i, st) in h.iter().enumerate() {
             if let Some(t) = vfs.get_syntax_tree(&fids[i]) {
-                if i < sexprs.len() && tree_sexpr(t) != sexprs[i] {
-                    failure.get_or_insert(format!("step {i}: stored tree changed after later parses"));
+                let expect = if st.level == last && i < sexprs.len() {
+                    sexprs[i].clone()
+                } else {
+                    tree_sexpr(&LuaParser::parse(&st.text, crate::c01::config(last, true)))
+                };
+                if tree_sexpr(t) != expect {
+                    failure.get_or_insert(format!("step {i}: the stored tree is not the tree of its text under the configuration in force"));
                 }
-                let _ = st;
             }
         }
     }
-    let ids = if distinct_files && failure.is_none() {
+    let single_level = h.windows(2).all(|w| w[0].level == w[1].level);
+    let ids = if distinct_files && single_level && failure.is_none() {
         let mut seen: HashMap<usize, usize> = HashMap::new();
         let mut parts = Vec::new();
         for fid in &fids {
@@ -236,6 +247,21 @@ pub fn run(args: &Args, report: &mut Report) {
             report.extra.insert("exhaustive_scope".into(), json!("all histories of length <= 4 over a 6-text pool (1554 histories), in addition to the random ones"));
         }
     }
+    // every distinct (text, level) is parsed in the watchdog child process first; a history containing an
+    // input the parser does not return on is reported through that input and not run in-process
+    let mut screen_idx: HashMap<(String, String), usize> = HashMap::new();
+    let mut screen_cases: Vec<crate::c02::Case> = Vec::new();
+    for h in &histories {
+        for st in h {
+            let key = (st.text.clone(), level_name(st.level).to_string());
+            if !screen_idx.contains_key(&key) {
+                screen_idx.insert(key, screen_cases.len());
+                screen_cases.push(crate::c02::Case { text: st.text.clone(), level: st.level, doc: true, label: "c04".into(), depth: 0 });
+            }
+        }
+    }
+    let screened = crate::c02::run_cases(&screen_cases);
+    let mut reported_bad: HashSet<usize> = HashSet::new();
     let mut seen: HashSet<String> = HashSet::new();
     let mut reqs = Vec::new();
     let mut expect = Vec::new();
@@ -249,6 +275,18 @@ pub fn run(args: &Args, report: &mut Report) {
         let key = h.iter().map(|s| format!("{}|{}|{}", hex(&s.text), level_name(s.level), s.file)).collect::<Vec<_>>().join(",");
         let nontrivial = h.len() >= 2 && h.iter().any(|s| s.text.split_whitespace().count() >= 3);
         if nontrivial && seen.insert(key) { report.distinct_nontrivial += 1; }
+        let bad: Vec<usize> = h.iter().map(|st| screen_idx[&(st.text.clone(), level_name(st.level).to_string())])
+            .filter(|i| !matches!(screened[*i], crate::c02::Outcome::Ok { .. })).collect();
+        if let Some(i) = bad.first() {
+            if matches!(screened[*i], crate::c02::Outcome::Skipped) {
+                report.count("skipped_after_failure_allowance");
+            } else if reported_bad.insert(*i) {
+                let c = &screen_cases[*i];
+                report.oracle_failure(json!({"input": hist_json(&[Step { text: c.text.clone(), level: c.level, file: 0 }]),
+                    "what": format!("parser did not return a tree on this input: {}", screened[*i].describe()), "class": Value::Null}));
+            }
+            continue;
+        }
         let h2 = h.clone();
         let out = match vh_common::catch(move || run_history(&h2)) {
             Ok(o) => o,
